@@ -124,6 +124,8 @@ def model_undo(spec, tids, resolver=None):
             else:
                 cur = revs[-1][1]
                 is_cur = last_occ and (k == len(revs) - 1)
+            if not isinstance(cur, (bytes, type(None))):
+                raise UndoEither()        # current state is a model-side merge result of an earlier call: bytes unknown
             if is_cur or cur == undone:
                 if not is_cur and undone is None:
                     # un-creation that is not current: FileStorage cannot read "the data being undone" and
@@ -131,6 +133,11 @@ def model_undo(spec, tids, resolver=None):
                     raise UndoEither()
                 new = pre if has_pre else None
             else:
+                if not last_occ:
+                    # a superseded duplicate record inside the undone transaction needs a merge: FileStorage
+                    # merges it against the transaction's *last* record of the oid; the dead record's fate is
+                    # not observable in the final state -> no verdict, outcome adopted
+                    raise UndoEither()
                 if not has_pre:
                     failures.add(o)
                     continue
